@@ -244,7 +244,7 @@ def main():
             "name": "crosshair-z3",
             "path": "vp/driver.py",
             "serves_properties": sorted(CLAIMED),
-            "kind_free_text": "CrossHair 0.0.110 (symbolic execution of Python, z3 4.x per path) driven through its API: "
+            "kind_free_text": "CrossHair 0.0.110 (symbolic execution of Python, z3 5.1.0 (z3-solver wheel) per path) driven through its API: "
                               "one worker process per condition x partition slice, vacuity twin per condition, concrete "
                               "replay of every counterexample on the real code",
         }],
